@@ -18,9 +18,9 @@ let client_str = function
   | ClSend -> "s"
   | ClDone -> "d"
 let worker_str = function
-  | WIdle -> "i" | WLoading -> "l"
-  | WSweepWant i -> Printf.sprintf "W%d" (int_of_nat i)
-  | WSweepHold i -> Printf.sprintf "H%d" (int_of_nat i)
+  | ClwIdle -> "i" | ClwLoading -> "l"
+  | ClwSweepWant i -> Printf.sprintf "W%d" (int_of_nat i)
+  | ClwSweepHold i -> Printf.sprintf "H%d" (int_of_nat i)
 let state_key s ticks =
   String.concat "," (List.map client_str (cl_clients s)) ^ "|" ^
   String.concat "," (List.map worker_str (cl_workers s)) ^ "|" ^
